@@ -10,7 +10,7 @@ Model: the path as a list of subpaths, each a list of (kind, evaluator) with the
 import copy as _copy
 
 from .. import core, gen, lib
-from . import c02, c08
+from . import c02, c08, c17
 
 PROPERTY = "C16"
 RULE = (
@@ -30,7 +30,7 @@ ASSUMPTIONS = [
     "Move.start is informational and ignored",
 ]
 TOLERANCES = {"point": "1e-9 * S", "arc point": "(1e-9 + 1e-15 * ratio^2) * S + max(4, ratio) * closure_gap(arc)"}
-MANDATORY_LABELS = {"quick": ["op:rev", "op:revsub", "op:mul", "shape:closed-nonzero", "shape:closed-zero", "shape:open", "shape:multi", "shape:repeated-segment", "history:double-reverse"]}
+MANDATORY_LABELS = {"quick": ["op:rev", "op:revsub", "op:mul", "shape:closed-nonzero", "shape:closed-zero", "shape:open", "shape:multi", "shape:repeated-segment", "history:double-reverse", "history:measured"]}
 MANDATORY_LABELS["thorough"] = MANDATORY_LABELS["quick"]
 
 TS = [0.0, 0.2, 0.5, 0.8, 1.0]
@@ -97,7 +97,7 @@ def decode(d, move_led=True):
     if d.chance(1, 4):
         ops = [["rev"], ["rev"]] if d.bool() else [["revsub", d.below(4)], ["revsub", 0]]
         ops[1][1:] = ops[0][1:]
-    return {"segs": segs, "ops": ops, "move_led": move_led}
+    return {"segs": segs, "ops": ops, "move_led": move_led, "measure": d.chance(1, 3)}
 
 
 def parts(tier):
@@ -259,9 +259,14 @@ def check(case):
             if no_move:
                 return o.excluded("fragment that the constructors cannot represent")
             raise core.HarnessError("model disagrees with the freshly built path: %s" % bad.detail)
+        measured = bool(case.get("measure")) and not no_move
+        if measured:
+            o.label("history:measured")
         for n, op in enumerate(ops):
             o.label("op:%s" % op[0])
             where = "after %s" % (ops[: n + 1],)
+            if measured:
+                c17.observe(p, S)  # length, points along the path, bounding box: whatever this caches must not go stale
             if op[0] == "rev":
                 p.reverse()
                 subs = [model_reverse_sub(s) for s in reversed(subs)]
@@ -287,6 +292,10 @@ def check(case):
             bad = compare(o, p, subs, S, where)
             if bad is not None:
                 return fail(bad)
+            if measured:
+                have, fresh = c17.observe(p, S), c17.observe(se.Path(p), S)
+                if not c17.same_observations(have, fresh, S):
+                    return o.violation("measured-history:%s" % op[0], "%s, the path having been measured before each step: [length, point(0.3), point(0.8), bbox] = %r, on a fresh copy of the same path %r" % (where, have, fresh))
         if o.labels.count("history:double-reverse"):
             if not (p == original):
                 return fail(o.violation("involution", "reversing twice gives %r, original %r" % (p.d(), original.d())))
